@@ -40,12 +40,20 @@ func (g *GenesisState) Validate() error {
 		return core.ErrNilPointer.Wrap("forwarder genesis state")
 	}
 
+	// NOTE: the state is initialized through the pausing setters, which reject
+	// an entry that is already paused, so repeated entries cannot be initialized.
+	visitedProtocolIDs := make(map[core.ProtocolID]struct{})
 	for _, id := range g.PausedProtocolIds {
 		if err := id.Validate(); err != nil {
 			return errorsmod.Wrap(err, "invalid paused protocol ID")
 		}
+		if _, found := visitedProtocolIDs[id]; found {
+			return core.ErrValidation.Wrapf("repeated paused protocol ID %s", id)
+		}
+		visitedProtocolIDs[id] = struct{}{}
 	}
 
+	visitedCrossChainIDs := make(map[string]struct{})
 	for _, id := range g.PausedCrossChainIds {
 		if id == nil {
 			return core.ErrNilPointer.Wrap("invalid paused cross-chain ID")
@@ -54,6 +62,10 @@ func (g *GenesisState) Validate() error {
 		if err := id.Validate(); err != nil {
 			return errorsmod.Wrapf(err, "invalid paused cross-chain ID %v", id)
 		}
+		if _, found := visitedCrossChainIDs[id.ID()]; found {
+			return core.ErrValidation.Wrapf("repeated paused cross-chain ID %s", id.ID())
+		}
+		visitedCrossChainIDs[id.ID()] = struct{}{}
 	}
 
 	return nil
